@@ -6,6 +6,7 @@ import (
 	"go/token"
 	"go/types"
 	"os"
+	"strings"
 
 	"golang.org/x/tools/go/ssa"
 
@@ -154,6 +155,34 @@ func c02(r *core.Run) {
 		}
 	}
 	r.Floor("R5.dupkey", 1)
+
+	// R4 uuids: a resource's uuid comes from the host's UUID handler; when the handler fails, the creation must abort —
+	// continuing with the zero value returned beside the error gives several live resources the same uuid
+	nUUID := 0
+	for _, fn := range w.SrcFuncs() {
+		if fn.Parent() != nil || fn.Pkg == nil || !w.InScope(fn.Pkg.Pkg.Path()) {
+			continue
+		}
+		for _, c := range core.Calls(fn, true) {
+			cc := c.Common()
+			isUUID := false
+			if cc.IsInvoke() {
+				isUUID = cc.Method.Name() == "GenerateUUID"
+			} else if nt, ok := cc.Value.Type().(*types.Named); ok && nt.Obj().Name() == "UUIDHandlerFunc" {
+				isUUID = true
+			}
+			if !isUUID {
+				continue
+			}
+			nUUID++
+			fl := core.FollowErr(c)
+			r.Check(!fl.Dropped && len(fl.Sinks) > 0 && fl.Swallow == nil, "R4.uuid", core.SSAKey(fn)+": UUID handler call", c.Pos(),
+				"the handler's error is propagated ("+strings.Join(fl.Sinks, ",")+")",
+				"the error of the UUID handler is dropped or swallowed: when the host fails, resources are created with the zero uuid returned beside the error, so live resources share a uuid")
+		}
+	}
+	r.Check(nUUID >= 3, "R4.uuid", "UUID handler call sites", 0, "call sites found", "fewer UUID handler call sites than reviewed (interpreter, VM, runtime handler)")
+	r.Floor("R4.uuid", 4)
 
 	// R6 the checker side that the run time relies on: census of the linearity mechanisms (a resource the checker wrongly
 	// treats as definitely moved/destroyed is lost at run time without any run-time check)
